@@ -558,8 +558,14 @@ func (env *specEnv) binary(n *ast.BinaryExpr) (string, types.Type, error) {
 	case token.LOR:
 		return or(xt, yt), tBool, nil
 	case token.EQL:
+		if xty != nil && yty != nil && isString(xty) && isString(yty) {
+			return env.e.strEq(xt, yt), tBool, nil
+		}
 		return eq(xt, yt), tBool, nil
 	case token.NEQ:
+		if xty != nil && yty != nil && isString(xty) && isString(yty) {
+			return not(env.e.strEq(xt, yt)), tBool, nil
+		}
 		return not(eq(xt, yt)), tBool, nil
 	case token.LSS:
 		return app("<", xt, yt), tBool, nil
@@ -688,13 +694,44 @@ func (env *specEnv) call(n *ast.CallExpr) (string, types.Type, error) {
 		}
 		return fmt.Sprintf("(exists ((%s Int)) %s)", bv, and(rng, body)), tBool, nil
 	case "forallint", "existsint":
-		id, ok := n.Args[0].(*ast.Ident)
-		if !ok || len(n.Args) != 2 {
-			return "", nil, fmt.Errorf("%s(i, body)", fname)
+		// forallint(v1, ..., vn, [pattern(t1, ..., tk),] body)
+		if len(n.Args) < 2 {
+			return "", nil, fmt.Errorf("%s(vars..., [pattern(...),] body)", fname)
 		}
-		e.nbound++
-		bv := fmt.Sprintf("q%d.%s", e.nbound, id.Name)
-		body, _, err := env.with(id.Name, binding{term: bv, kind: "int"}).tr(n.Args[1])
+		env2 := env
+		var decls []string
+		k := 0
+		for ; k < len(n.Args)-1; k++ {
+			id, ok := n.Args[k].(*ast.Ident)
+			if !ok {
+				break
+			}
+			e.nbound++
+			bv := fmt.Sprintf("q%d.%s", e.nbound, id.Name)
+			env2 = env2.with(id.Name, binding{term: bv, kind: "int"})
+			decls = append(decls, "("+bv+" Int)")
+		}
+		if len(decls) == 0 {
+			return "", nil, fmt.Errorf("%s: no bound variables", fname)
+		}
+		var pats []string
+		if k < len(n.Args)-1 {
+			pc, ok := n.Args[k].(*ast.CallExpr)
+			if !ok || len(n.Args)-1-k != 1 {
+				return "", nil, fmt.Errorf("%s: expected pattern(...) before the body", fname)
+			}
+			if id, ok := pc.Fun.(*ast.Ident); !ok || id.Name != "pattern" {
+				return "", nil, fmt.Errorf("%s: expected pattern(...) before the body", fname)
+			}
+			for _, pa := range pc.Args {
+				pt, _, err := env2.tr(pa)
+				if err != nil {
+					return "", nil, err
+				}
+				pats = append(pats, pt)
+			}
+		}
+		body, _, err := env2.tr(n.Args[len(n.Args)-1])
 		if err != nil {
 			return "", nil, err
 		}
@@ -702,7 +739,10 @@ func (env *specEnv) call(n *ast.CallExpr) (string, types.Type, error) {
 		if fname == "existsint" {
 			q = "exists"
 		}
-		return fmt.Sprintf("(%s ((%s Int)) %s)", q, bv, body), tBool, nil
+		if len(pats) > 0 {
+			body = fmt.Sprintf("(! %s :pattern (%s))", body, strings.Join(pats, " "))
+		}
+		return fmt.Sprintf("(%s (%s) %s)", q, strings.Join(decls, " "), body), tBool, nil
 	}
 	ts, tys, err := env.args(n)
 	if err != nil {
@@ -769,6 +809,38 @@ func (env *specEnv) call(n *ast.CallExpr) (string, types.Type, error) {
 			return "", nil, fmt.Errorf("typeis: unknown type %q", s)
 		}
 		return eq(app("i.typ", ts[0]), intLit64(int64(e.st.typeID(ty)))), tBool, nil
+	case "kindis": // kindis(x, "int64"): the dynamic type of interface value x has this underlying kind
+		lit, ok := n.Args[1].(*ast.BasicLit)
+		if !ok {
+			return "", nil, fmt.Errorf("kindis(x, \"kind\")")
+		}
+		s, _ := strconv.Unquote(lit.Value)
+		kc, ok := kindNames[s]
+		if !ok {
+			return "", nil, fmt.Errorf("kindis: unknown kind %q", s)
+		}
+		return and(not(eq(app("i.typ", ts[0]), "0")), eq(app("mod", app("i.typ", ts[0]), "32"), strconv.Itoa(kc))), tBool, nil
+	case "asint":
+		_, ub := e.st.boxFns("Int")
+		return app(ub, app("i.val", ts[0])), tInt, nil
+	case "asstr":
+		_, ub := e.st.boxFns("Str")
+		return app(ub, app("i.val", ts[0])), types.Typ[types.String], nil
+	case "asslice": // asslice(x, "elemtype"): the slice held by interface x, viewed with the given element type
+		lit, ok := n.Args[1].(*ast.BasicLit)
+		if !ok {
+			return "", nil, fmt.Errorf("asslice(x, \"elemtype\")")
+		}
+		s, _ := strconv.Unquote(lit.Value)
+		et := env.resolveType(s)
+		if et == nil {
+			return "", nil, fmt.Errorf("asslice: unknown element type %q", s)
+		}
+		_, ub := e.st.boxFns("Slice")
+		return app(ub, app("i.val", ts[0])), types.NewSlice(et), nil
+	case "asbytes":
+		_, ub := e.st.boxFns("Slice")
+		return app(ub, app("i.val", ts[0])), types.NewSlice(types.Typ[types.Uint8]), nil
 	case "abs":
 		if isTime(tys[0]) {
 			return app("t.abs", ts[0]), tInt, nil
@@ -848,8 +920,8 @@ func (env *specEnv) call(n *ast.CallExpr) (string, types.Type, error) {
 			return app(">=", app("s.base", ts[0]), top), tBool, nil
 		}
 		return app(">=", ts[0], top), tBool, nil
-	case "streq": // streq(s, t): same length and bytes (extensional equality)
-		return eq(ts[0], ts[1]), tBool, nil
+	case "streq": // streq(s, t): same length and bytes
+		return env.e.strEq(ts[0], ts[1]), tBool, nil
 	}
 	if gf, ok := e.p.specs.GhostFuncs[fname]; ok {
 		e.useGhostFunc(gf)
@@ -868,6 +940,17 @@ func (env *specEnv) call(n *ast.CallExpr) (string, types.Type, error) {
 
 func (env *specEnv) resolveType(s string) types.Type {
 	s = strings.ReplaceAll(s, "@/", modulePath+"/")
+	if strings.HasPrefix(s, "[]") {
+		if et := env.resolveType(s[2:]); et != nil {
+			return types.NewSlice(et)
+		}
+		return nil
+	}
+	if obj := types.Universe.Lookup(s); obj != nil {
+		if tn, ok := obj.(*types.TypeName); ok {
+			return tn.Type()
+		}
+	}
 	ptr := false
 	if strings.HasPrefix(s, "*") {
 		ptr = true
